@@ -1,0 +1,96 @@
+//go:build verif
+
+package pattern
+
+import (
+	"fmt"
+	"strings"
+)
+
+// Verification hooks (add-only, read-only): a dump of the compiled items and
+// a variant of Match/MatchFromStart that reports whether the matcher raised a
+// Go run-time panic (which Match's blanket recover() hides).
+
+// VerifDump renders the compiled pattern: ncap:anchors:items.
+func VerifDump(p *Pattern) string {
+	var b strings.Builder
+	sa, ea := 0, 0
+	if p.startAnchor {
+		sa = 1
+	}
+	if p.endAnchor {
+		ea = 1
+	}
+	fmt.Fprintf(&b, "%d:%d%d:", p.captureCount, sa, ea)
+	if len(p.items) == 0 {
+		b.WriteString("-")
+	}
+	for i, it := range p.items {
+		if i > 0 {
+			b.WriteByte(',')
+		}
+		switch it.ptnType {
+		case ptnOnce:
+			b.WriteString("o" + verifSetHex(it.bytes))
+		case ptnGreedyRepeat:
+			b.WriteString("*" + verifSetHex(it.bytes))
+		case ptnGreedyRepeatOnce:
+			b.WriteString("+" + verifSetHex(it.bytes))
+		case ptnRepeat:
+			b.WriteString("-" + verifSetHex(it.bytes))
+		case ptnOptional:
+			b.WriteString("?" + verifSetHex(it.bytes))
+		case ptnCapture:
+			fmt.Fprintf(&b, "r%d", it.bytes[0])
+		case ptnBalanced:
+			fmt.Fprintf(&b, "b%d:%d", it.bytes[0], it.bytes[1])
+		case ptnFrontier:
+			b.WriteString("f" + verifSetHex(it.bytes))
+		case ptnStartCapture:
+			fmt.Fprintf(&b, "(%d", it.bytes[0])
+		case ptnEndCapture:
+			fmt.Fprintf(&b, ")%d", it.bytes[0])
+		default:
+			fmt.Fprintf(&b, "?%d", it.ptnType)
+		}
+	}
+	return b.String()
+}
+
+func verifSetHex(s byteSet) string {
+	h := fmt.Sprintf("%016x%016x%016x%016x", s[3], s[2], s[1], s[0])
+	h = strings.TrimLeft(h, "0")
+	if h == "" {
+		h = "0"
+	}
+	return h
+}
+
+// VerifMatchRaw runs the matcher like Match (fromStart=false) or
+// MatchFromStart (fromStart=true) and reports a non-budget panic instead of
+// swallowing it.
+func VerifMatchRaw(p *Pattern, s string, init int, budget uint64, fromStart bool) (captures []Capture, used uint64, panicked string) {
+	defer func() {
+		if r := recover(); r != nil {
+			captures = nil
+			if r == budgetConsumed {
+				used = budget + 1
+			} else {
+				used = 0
+				panicked = fmt.Sprint(r)
+			}
+		}
+	}()
+	matcher := patternMatcher{
+		Pattern: *p,
+		s:       s,
+		si:      init,
+		budget:  budget,
+	}
+	if fromStart {
+		captures = matcher.findFromStart()
+	} else {
+		captures = matcher.find()
+	}
+	return captures, budget - matcher.budget, ""
+}
